@@ -5,8 +5,10 @@ import Gen.C13
 /-! Driver for the C13 stream: one `run` op = one node life (start, scripted span, stop request).  The model's
 verdict is `Shutdown.stopsPromptly` on the table of blocking points regenerated from the current source: the stop
 request finds every worker at a ctx select, except that a stop that arrives while the start-up delay of
-`AggregationLoop` still has more than the 2 s bound to go finds that worker at its `time.Sleep` point (if the
-table still has one). -/
+`AggregationLoop` still has more than the 2 s bound to go finds that worker at a `time.Sleep` point IF the table has
+one (the current tree has none since /repo 57ac6dd: the verdict is "1"; `Spec.C13.C13_verdicts`), and that a full node
+with an aborting execution layer has SyncLoop and DAIncluderLoop at a plain `errCh <-` IF the table has those (none
+since /repo 9e73ab9).  A defect that comes back is thus predicted from the regenerated table, not hard-wired. -/
 namespace Drv.C13
 open Shutdown
 
@@ -36,7 +38,8 @@ def parse (o : Op) : Option Scen :=
   else if s.xexec > 2000 ∨ (s.xexec > 0 ∧ mode ≠ "full") then none
   else some s
 
-/-- where the stop request finds the workers that are not at a ctx select -/
+/-- where the stop request finds the workers that are not at a ctx select (parking at a point the table does not have
+is a no-op in `stopsPromptly`: the worker is then at its ctx select like the others) -/
 def parkOf (s : Scen) : List (Nat × BP) :=
   if s.agg ∧ s.future > 0 ∧ s.future + s.bt > s.span + boundMs then
     match Gen.C13.aggregatorWorkers.idxOf? 0 with
@@ -45,7 +48,7 @@ def parkOf (s : Scen) : List (Nat × BP) :=
   else []
 
 /-- full node whose execution layer aborts its calls with the context's error when the node is stopped: both
-SyncLoop (code 8) and DAIncluderLoop (code 4) are on their way to their plain `errCh <- err` -/
+SyncLoop (code 8) and DAIncluderLoop (code 4) are on their way to a plain `errCh <- err`, if they have one -/
 def parkFull (s : Scen) : List (Nat × BP) :=
   if s.xexec > 0 then
     (match Gen.C13.fullWorkers.idxOf? 8 with | some i => [(i, BP.errSend)] | none => []) ++
